@@ -494,7 +494,9 @@ class Interp:
             recv = strip(args[0])
             cands = self._trait_impls().get((tr, fn["name"]), [])
             if isinstance(recv, Adt):
-                sel = [c for c in cands if c.impl_adt == recv.path]
+                # only methods with a `self` receiver are dispatched on the first argument's type
+                # (`From::from(x)`: Self is the target type, not the type of x)
+                sel = [c for c in cands if c.impl_adt == recv.path and self._has_self(c)]
                 if len(sel) > 1:
                     # choose among impls that differ only in trait generic args, by the call's type args
                     targs = [self.F.ty_str(t) for t in fn.get("args", [])]
@@ -521,11 +523,15 @@ class Interp:
                 if item.qname in self.no_inline:
                     self.emit("call", item.qname, [summary(a) for a in args])
                     return Sym("ret:%s" % item.qname, expr["ty"] if expr else None)
-                if item.expn and fn["path"] in self.models:
+                if item.expn and fn["path"] in self.models and item.name != "default":
                     return self.models[fn["path"]](self, args, fn, expr)
                 return self.call_item(item, args, inst=cid)
             if which == "mono_via" and not ci["local"]:
                 continue
+        # library callee: remember what rustc resolved (models use it where the generic type is not enough)
+        ci = F.instances[fn["mono"]]
+        fn["mono_path"] = ci["path"]
+        fn["mono_args"] = ci["args"]
         return NotImplemented
 
     def local_callee_via(self, fn, names, depth=4):
@@ -555,10 +561,14 @@ class Interp:
             frontier = nxt
         return None
 
+    def _has_self(self, item):
+        th = self.F.bodies.get(item.key, {}).get("thir")
+        return bool(th and th["params"] and th["params"][0].get("self"))
+
     def dispatch_local_trait(self, trait, name, args):
         recv = strip(args[0]) if args else None
         if isinstance(recv, Adt):
-            sel = [c for c in self._trait_impls().get((trait, name), []) if c.impl_adt == recv.path]
+            sel = [c for c in self._trait_impls().get((trait, name), []) if c.impl_adt == recv.path and self._has_self(c)]
             if len(sel) == 1:
                 return sel[0]
         return None
@@ -592,7 +602,7 @@ class Interp:
             if item.qname in self.no_inline:
                 self.emit("call", item.qname, [summary(a) for a in args])
                 return Sym("ret:%s" % item.qname, expr["ty"] if expr else None)
-            if item.expn and path in self.models:
+            if item.expn and path in self.models and item.name != "default":
                 # derived impl (Clone, PartialEq, ...): the library model has the same meaning
                 return self.models[path](self, args, fn, expr)
             return self.call_item(item, args)
@@ -784,6 +794,16 @@ class Frame:
                     return True
             return False
         if k == "Variant":
+            if pat["adt"] == "std::borrow::Cow":
+                # Cow is transparent in the evaluator (a borrowed or owned view of the same text): a value that
+                # is not an explicit Cow matches the Borrowed arm
+                raw = place.get()
+                while isinstance(raw, (Ref, Sym)) and not (isinstance(raw, Sym) and raw.resolved is None):
+                    raw = raw.place.get() if isinstance(raw, Ref) else raw.resolved
+                if not (isinstance(raw, Adt) and raw.path == "std::borrow::Cow"):
+                    if pat["variant"] != "Borrowed":
+                        return False
+                    return all(self.bind(sp["p"], place) for sp in pat["subs"])
             v = self.force_enum(place, pat)
             if isinstance(v, Top):
                 raise Abort("match on unanalysable value: %s" % v.reason)
@@ -949,6 +969,24 @@ class Frame:
 
     def e_Cast(self, e):
         v = self.eval(e["source"])
+        x = strip(v)
+        t = self.I.F.types[e["ty"]]
+        tname = t.get("s", "")
+        widths = {"u8": 8, "u16": 16, "u32": 32, "u64": 64, "usize": 64, "u128": 128}
+        if isinstance(x, Char) and tname in widths:
+            return ord(x.c) & ((1 << widths[tname]) - 1)
+        if isinstance(x, Char) and tname == "char":
+            return x
+        if isinstance(x, bool) and tname in widths:
+            return int(x)
+        if isinstance(x, int) and not isinstance(x, bool):
+            if tname in widths:
+                return x & ((1 << widths[tname]) - 1)
+            if tname == "char" and 0 <= x < 0x110000:
+                return Char(chr(x))
+        if isinstance(x, Sym) and t.get("k") in ("uint", "int", "char") and tname != self.I.F.types[self.exprs[e["source"]]["ty"]].get("s"):
+            # a numeric conversion of an unknown value is a different value (truncation / extension)
+            return Sym("(%s as %s)" % (x.name, tname), e["ty"])
         return v
 
     def e_Literal(self, e):
@@ -1226,6 +1264,8 @@ def const_value(val, e=None):
         return Adt(val["adt"], val["variant"], {f["name"]: const_value(f["val"], e) for f in val["fields"]})
     if t == "tuple":
         return Tup([const_value(f, e) for f in val["fields"]])
+    if t == "bytes":
+        return RList(list(val["v"]))
     return val["v"]
 
 
